@@ -25,8 +25,9 @@
 
   Control flow is kept code-shaped.  This is the code after the fix: commits 919a36b (the loop variable
   no longer doubles as the return value, DESIGN 6 items 10/18) and 576f1fd (a final-flagged state that
-  has just been entered fires also when its active children are not all final, item 11) and 56c10cf
-  (`_just_entered` compares the scoped path as well as the state object).  The root call
+  has just been entered fires also when its active children are not all final, item 11) 56c10cf
+  (`_just_entered` compares the scoped path as well as the state object) and 4b253dd (`_scoped_final`: the root scope,
+  where `scoped` is the machine, is never treated as a final state whatever attribute `final` the machine object has).  The root call
   can still reach `machine.scoped_enter` syntactically; `C18_nested_exact` proves it never does.
   Import-free: the driver links this file.
 -/
@@ -52,9 +53,6 @@ structure Defs where
   onFinal : Nat → List Nat
   /-- `HierarchicalMachine.on_final` -/
   machineOnFinal : List Nat
-  /-- `getattr(machine, 'final', False)` is truthy: the machine object has an attribute named `final` — it is its
-  own model and has an event (or a state `is_`/`to_` helper… any attribute) called `final`; a plain machine has none -/
-  machineFinalAttr : Bool := false
 
 /-- whose `on_final` list a collected partial runs -/
 inductive Owner
@@ -119,18 +117,12 @@ inductive RootResult
 no `final` attribute and no `scoped_enter`); `roots` is the whole new configuration. -/
 def finalCheckRoot (D : Defs) (E : List Nat) (roots : List Tree) : RootResult :=
   let r := finalLoop D E roots [] true
-  if roots.isEmpty then
-    -- elif getattr(machine, 'final', False): if self._just_entered(…): …
-    if D.machineFinalAttr && !E.isEmpty then .attributeError else .ok []
+  if roots.isEmpty then .ok []                       -- `_scoped_final`: the machine itself is never final
   else if r.2 then
     if !r.1.isEmpty then .ok (r.1 ++ [.machine])     -- `on_final_cbs or …` short-circuits
     else if E.isEmpty then .ok r.1                   -- any() over no partials: nothing is evaluated
     else .attributeError                             -- first partial: `machine.scoped_enter`
-  else if D.machineFinalAttr && !E.isEmpty then
-    -- elif getattr(event_data.machine.scoped, 'final', False) and self._just_entered(…): `scoped` is the machine;
-    -- when the machine HAS an attribute `final` the second operand is evaluated: `machine.scoped_enter`
-    .attributeError
-  else .ok r.1
+  else .ok r.1      -- `elif self._scoped_final(event_data) and …`: False at the root, nothing else is evaluated
 
 /-- the callbacks `_change_state` then runs: `for on_final_cb in on_final_cbs: on_final_cb()`, each a
 `machine.callbacks(owner.on_final, event_data)` -/
